@@ -271,13 +271,13 @@ func (m *mux) write(id ConnID, buf []byte) (int, error) {
 			return 0, err
 		}
 
-		n, err = m.trunk.Write(data[:size])
+		_, err = m.trunk.Write(data[:size])
 		if err != nil {
+			// The header of this frame is already on the trunk: whatever is
+			// written next would be read as its payload by the other end.
 			err = fmt.Errorf("failed to write payload to trunk: %w", err)
-			if n != 0 {
-				m.setError(err)
-				m.Close()
-			}
+			m.setError(err)
+			m.Close()
 			return 0, err
 		}
 
